@@ -525,6 +525,8 @@ func runC07(c *Ctx) {
 	r7 := c.Rule("R7", "a first root's handle is registered only after its blob was written: the root id is published in StoreInfo.RootNodeID, so a registered handle without a blob is reachable data that does not load, and (the partial step not being undone, R2) it blocks every later creator of that root for good, whereas an orphan blob is overwritten by the retry", 1)
 	rootBlobBeforeHandleRule(c, r7)
 	failedFlipKeepsKeysRule(c, r5)
+	r11 := c.Rule("R11", "building a log record changes nothing: the functions phase1Commit calls only to compute the payload of logger.log(...) do not assign tracker or transaction state - the rollback of a commit that fails later calls the same getters again and must see what the first call saw", 3)
+	payloadPurityRule(c, r11)
 	r10 := c.Rule("R10", "a rollback never deletes a committed value: an actively persisted store writes updated values before the commit point under a fresh blob id, whether or not the value was read first (shared with C03.R8)", 2)
 	activePersistRekeyRule(c, r10)
 	r9 := c.Rule("R9", "the step marker is the step whose log write was attempted: transactionLog.log assigns committedState = f on every path, also when the backend rejects the record - rollback's strict `>` guards read a failed log of step S as `S-1 completed, S not started`", 2)
@@ -956,4 +958,161 @@ func stepMarkerRule(c *Ctx, r9 string) {
 	offs := g.MustPrecede(set, func(n *GNode) bool { return n.Ret != nil })
 	c.Offences(g, offs, r9, "transactionLog.log: every return follows the assignment of committedState", f.Decl.Pos(), "assigned before the backend write, whatever its outcome",
 		"log can return (with the backend's error) without having advanced committedState: the failed commit's rollback then sees the previous step as the current one and, its guards being strict, skips the undo of that fully executed step - staged inactive ids, deleted marks or the store count of a failed commit stay behind and block or mislead later transactions")
+}
+
+// payloadPurityRule (C07.R11).
+func payloadPurityRule(c *Ctx, r string) {
+	w := c.W
+	f := w.Fn(kTxp1)
+	c.Analysed(f)
+	type eff struct {
+		fn   *Func
+		what string
+		pos  token.Pos
+	}
+	effectsOf := func(root *Func) []eff {
+		var out []eff
+		seen := map[*Func]bool{}
+		var rec func(fn *Func, depth int)
+		rec = func(fn *Func, depth int) {
+			if fn == nil || seen[fn] || depth > 4 || shortPkgPath(fn.Pkg.PkgPath) != "common" {
+				return
+			}
+			seen[fn] = true
+			info := fn.Pkg.TypesInfo
+			ast.Inspect(fn.Body, func(x ast.Node) bool {
+				as, ok := x.(*ast.AssignStmt)
+				if !ok || as.Tok == token.DEFINE {
+					return true
+				}
+				for _, l := range as.Lhs {
+					e := ast.Unparen(l)
+					if ix, ok := e.(*ast.IndexExpr); ok {
+						e = ast.Unparen(ix.X)
+					}
+					if fv := fieldOfSelector(info, e); fv != nil && sharedRoot(fn, e) {
+						out = append(out, eff{fn, fv.Name(), as.Pos()})
+					}
+				}
+				return true
+			})
+			for _, cs := range w.Sites(fn) {
+				rec(w.CalleeFunc(cs), depth+1)
+				for _, impl := range implsOf(w, cs) {
+					rec(impl, depth+1)
+				}
+				if fv, ok := cs.Callee.(*types.Var); ok && fv.IsField() {
+					for _, tgt := range w.funcFieldTargets(originOf(fv).(*types.Var)) {
+						rec(tgt, depth+1)
+					}
+				}
+			}
+		}
+		rec(root, 0)
+		return out
+	}
+	nBuilders := 0
+	reported := map[string]bool{}
+	for _, cs := range w.AllSites(f) {
+		if cs.Key != kLoggerLog || len(cs.Call.Args) != 3 {
+			continue
+		}
+		step := types.ExprString(cs.Call.Args[1])
+		// calls inside the payload expression
+		ast.Inspect(cs.Call.Args[2], func(x ast.Node) bool {
+			call, ok := x.(*ast.CallExpr)
+			if !ok {
+				return true
+			}
+			pcs := w.resolveCall(cs.In, call)
+			if pcs == nil {
+				return true
+			}
+			cf := w.CalleeFunc(pcs)
+			if cf == nil || shortPkgPath(cf.Pkg.PkgPath) != "common" || cf.Key == "common.toByteArray" {
+				return true
+			}
+			nBuilders++
+			effs := effectsOf(cf)
+			construct := fmt.Sprintf("phase1Commit: the payload builder of log(%s), %s, assigns no state", step, shortKey(cf.Key))
+			if reported[construct] {
+				return true
+			}
+			reported[construct] = true
+			var what []string
+			pos := cs.Call.Pos()
+			for _, e := range effs {
+				what = append(what, fmt.Sprintf("%s in %s", e.what, shortKey(e.fn.Key)))
+				pos = e.pos
+			}
+			what = dedup(what)
+			c.Check(len(effs) == 0, r, construct, pos, "read-only",
+				fmt.Sprintf("computing the log payload assigns %v: called once more by the rollback of a commit that fails afterwards, the getter then yields the ORIGINAL ids of the updated items (their ids were reset by the first call) - the rollback deletes the committed value blobs and leaks the ones the failed transaction wrote; after a successful commit the replaced blobs are never deleted because the deletion queue was cleared", what), nil)
+			return true
+		})
+	}
+	c.Check(nBuilders >= 3, r, "phase1Commit: payload builders inventoried", f.Decl.Pos(), fmt.Sprintf("%d builder calls", nBuilders), fmt.Sprintf("only %d", nBuilders), nil)
+}
+
+// sharedRoot: the selector chain of an assignment target starts at the receiver, a parameter, or the key/value
+// variable of a range over receiver state (whose pointer fields alias it) - as opposed to a value the function
+// allocated itself.
+func sharedRoot(fn *Func, e ast.Expr) bool {
+	info := fn.Pkg.TypesInfo
+	for {
+		switch x := ast.Unparen(e).(type) {
+		case *ast.SelectorExpr:
+			e = x.X
+			continue
+		case *ast.IndexExpr:
+			e = x.X
+			continue
+		case *ast.StarExpr:
+			e = x.X
+			continue
+		case *ast.Ident:
+			v, ok := info.Uses[x].(*types.Var)
+			if !ok {
+				return false
+			}
+			if fn.Decl != nil {
+				if fn.Decl.Recv != nil {
+					for _, fld := range fn.Decl.Recv.List {
+						for _, nm := range fld.Names {
+							if info.Defs[nm] == types.Object(v) {
+								return true
+							}
+						}
+					}
+				}
+				for _, fld := range fn.Decl.Type.Params.List {
+					for _, nm := range fld.Names {
+						if info.Defs[nm] == types.Object(v) {
+							_, isPtr := v.Type().Underlying().(*types.Pointer)
+							_, isMap := v.Type().Underlying().(*types.Map)
+							return isPtr || isMap
+						}
+					}
+				}
+			}
+			// range variables over receiver / parameter state
+			shared := false
+			ast.Inspect(fn.Body, func(y ast.Node) bool {
+				rs, ok := y.(*ast.RangeStmt)
+				if !ok {
+					return true
+				}
+				for _, kv := range []ast.Expr{rs.Key, rs.Value} {
+					if id, ok := kv.(*ast.Ident); ok && info.Defs[id] == types.Object(v) {
+						if _, isSel := ast.Unparen(rs.X).(*ast.SelectorExpr); isSel {
+							shared = true
+						}
+					}
+				}
+				return true
+			})
+			return shared
+		}
+		return false
+	}
 }
